@@ -96,7 +96,7 @@ func r10_1(r *Report, p *Program, entries []syncEntry) {
 		// failure edge: no write call, only error returns
 		ev := engine.ErrValue(e.SyncObj.Instr)
 		var from []engine.Point
-		for _, b := range f.Blocks {
+		for _, b := range engine.BlocksInl(f) {
 			for i := range b.Succs {
 				if l, ok := engine.EdgeLit(b, i); ok {
 					if v, isNil, ok := l.NilTest(); ok && !isNil && engine.SameValue(v, ev) {
@@ -443,7 +443,7 @@ func r10_5(r *Report, p *Program) {
 	// writers of the `finalizing` field
 	n := 0
 	for _, f := range p.Scanned {
-		for _, b := range f.Blocks {
+		for _, b := range engine.BlocksInl(f) {
 			for _, in := range b.Instrs {
 				st, ok := in.(*ssa.Store)
 				if !ok || !strings.HasSuffix(E(st.Addr), ".finalizing") {
@@ -458,7 +458,7 @@ func r10_5(r *Report, p *Program) {
 	for _, key := range []string{"controller/composite/api/v1.requestBuilder.Build", "controller/decorator/api/v1.requestBuilder.Build"} {
 		if f := fn(r, p, rule, key); f != nil {
 			ok := false
-			for _, b := range f.Blocks {
+			for _, b := range engine.BlocksInl(f) {
 				for _, in := range b.Instrs {
 					if st, isS := in.(*ssa.Store); isS && strings.HasSuffix(E(st.Addr), ".Finalizing") && E(st.Val) == "p0.finalizing" {
 						ok = true
@@ -483,7 +483,7 @@ func r10_6(r *Report, p *Program, entries []syncEntry) {
 	for _, e := range entries {
 		f := e.Fn
 		n := 0
-		for _, b := range f.Blocks {
+		for _, b := range engine.BlocksInl(f) {
 			for _, in := range b.Instrs {
 				if !isCallTo(in, "ResourceClient.RemoveFinalizer", "controllerutil.RemoveFinalizer") {
 					continue
@@ -509,7 +509,7 @@ func r10_6(r *Report, p *Program, entries []syncEntry) {
 	}
 	// aggregate
 	var tStore, fStore *ssa.Store
-	for _, b := range sr.Blocks {
+	for _, b := range engine.BlocksInl(sr) {
 		for _, in := range b.Instrs {
 			if st, ok := in.(*ssa.Store); ok && strings.HasSuffix(E(st.Addr), "CompositeHookResponse>.Finalized") {
 				switch E(st.Val) {
